@@ -245,6 +245,8 @@ type zzSSEServer struct {
 	doErrors  int
 	sawID     bool // some event id has reached the client (a cursor exists)
 	budget    int // how many more adverse outcomes the environment may inject
+	refused   int // reconnects answered with a non-2xx status
+	getsAfterRefusal int
 }
 
 var zzSrv *zzSSEServer
@@ -311,6 +313,16 @@ func zzClientDo(_ *http.Client, req *http.Request) (*http.Response, error) {
 		s.doErrors++
 		return nil, errors.New("dial tcp: connection refused")
 	}
+	if s.refused > 0 {
+		s.getsAfterRefusal++
+	}
+	if s.budget > 0 && vBool("reconnectRefused") {
+		// the server answers the resume with an HTTP error: session gone, method not allowed, overload, server error
+		s.budget--
+		s.refused++
+		code := []int{http.StatusNotFound, http.StatusMethodNotAllowed, http.StatusBadRequest, http.StatusInternalServerError, http.StatusServiceUnavailable, http.StatusTooManyRequests}[vChoice("status", 6)]
+		return &http.Response{StatusCode: code, Body: &zzBody{}}, nil
+	}
 	from := 0
 	if last != "" {
 		vAssert(len(last) == 3 && last[0] == 's' && last[1] == '_', "C09.resume.well-formed-last-event-id")
@@ -318,6 +330,8 @@ func zzClientDo(_ *http.Client, req *http.Request) (*http.Response, error) {
 	}
 	return &http.Response{StatusCode: 200, Body: s.body(from)}, nil
 }
+
+func zzReadAllNothing(io.Reader) ([]byte, error) { return nil, nil }
 
 func zzC09Resume() {
 	srv := &zzSSEServer{nEvents: vParam("events"), budget: vParam("faults"), priming: vBool("priming")}
@@ -366,9 +380,16 @@ func zzC09Resume() {
 		vReach("completed")
 	}
 	// within the retry budget (fewer adverse events than retries) the call must complete with the real response
-	if vParam("faults") <= c.maxRetries {
+	if vParam("faults") <= c.maxRetries && srv.refused == 0 {
 		// (a stream cut before any event id was received has no cursor and legitimately fails cleanly)
 		vAssert(gotResponse == 1 || (srv.sawID == false && synthetic == 1), "C09.resume.completes-within-budget")
+	}
+	if srv.refused > 0 {
+		// a resume refused by the server ends the logical session: the connection fails (so the pending call
+		// completes with an error) and the client stops asking
+		vAssert(failed && gotResponse == 0, "C09.resume.refused-reconnect-fails-the-connection")
+		vAssert(srv.getsAfterRefusal == 0, "C09.resume.no-retry-after-refusal")
+		vReach("refused")
 	}
 	if failed {
 		vReach("failed")
